@@ -414,8 +414,11 @@ func vModelC55(tr vTree, c *vCaseC55) vExpectC55 {
 				x.kinds = append(x.kinds, f.Kind)
 				switch {
 				case vIsVanishC55(f.Kind):
+				case f.Kind == kVanishLate && nd.Kind == 'f':
+					// a regular file that vanished between lstat and the open for reading is a
+					// vanished file like any other (repaired in /repo by 0be3aa77c): status unaffected
 				case f.Kind == kVanishLate:
-					x.eitherOK = true
+					x.eitherOK = true // directories: the statement speaks of files; 0 or 3 accepted
 				default:
 					x.status3 = true
 				}
